@@ -307,15 +307,15 @@ def scenarios(tier, seed):
     for cap, init in inits[: 2 if quick else 3]:
         for p1 in OPS_T1:
             for p2 in t2progs:
-                cases.append((cap, init, ((p1,), p2), bound, 150 if quick else 4000))
+                cases.append((cap, init, ((p1,), p2), bound, 150 if quick else 1200))
     # random larger scenarios
-    nrand = 60 if quick else 3000
+    nrand = 60 if quick else 500
     for _ in range(nrand):
         cap, init = rnd.choice(inits)
         nthreads = rnd.choice([2, 2, 3])
         progs = tuple(tuple(rnd.choice(ALL_OPS) for _ in range(rnd.choice([1, 2, 2, 3] if nthreads == 2 else [1, 1, 2])))
                       for _ in range(nthreads))
-        cases.append((cap, init, progs, bound, 150 if quick else 3000))
+        cases.append((cap, init, progs, bound, 150 if quick else 1000))
     return cases
 
 
